@@ -240,3 +240,116 @@ Definition c18_prop_w1 (k : fk_case) : bool :=
 
 Definition c18_verdict (k : fk_case) : N := combine k (c18_prop k && c18_prop_w1 k).
 Definition c18_verdicts (l : list fk_case) := nonzero (map c18_verdict l).
+
+(* ---- W3 (projection / conclusion audit of C01-C04): clauses of the property texts that neither the monitors of Spec/Consumer.v
+   (c01_*_b, c02_b, c04_b: used by the *_monitor_sound theorems, left as they are) nor c03_follow evaluate on the
+   implementation's observation, and observables that the Coq event type has no field for.  The case of C01-C04 is the
+   family's case plus what the Go harness observed besides:
+   x_flags: per incoming block, per delivered event, a bit set (harness/fk.go, constants fkFlagBlock, fkFlagObj, fkFlagStepBlocks): 1 = the block handed to the handler is not
+            (proto-equal to) a block that was fed under that id (payload, timestamp); 2 = the wrapped object is not the one fed
+            with that block; 4 = StepBlocks disagrees with StepCount / StepIndex / the delivered block; 8 = FinalBlockHeight() is
+            not the cursor's LIB height;
+   x_indep: C03 "outputs do not depend on the retention setting or on re-fed or below-LIB blocks" evaluated on the REAL code
+            (the harness runs it again with other kept values and without the noise blocks): 1 = depends on kept, 2 = on noise.
+   Also projected by the harness since W3 (no new field): a cursor whose STEP is not the event's gets a foreign cursor block
+   (fkCursorBlk: clause `ecblk = bref eblk` of c04_b / cursors_ok / c04_file_verdict); a returned error that is not the handler's
+   error value (errors.Is) is result "other" (RFuel: c01_error_b demands RHandlerErr on the failing call). *)
+Record fk_xcase := mkFkX { x_k : fk_case; x_flags : list (list N); x_indep : N }.
+
+Definition flags_clear (mask : N) (x : fk_xcase) : bool :=
+  forallb (forallb (fun f => N.land f mask =? 0)) (x_flags x).
+
+(* C01: "every block delivered as New / Undo": the handler is handed the blocks the source fed, each with its own wrapped
+   object, and a batch event names its batch (outside the sentence proper: consistency of the event's own fields) *)
+Definition c01_prop_w3 (x : fk_xcase) : bool := flags_clear 7 x.
+Definition c01_xverdict (x : fk_xcase) : N := combine (x_k x) (c01_prop (x_k x) && c01_prop_w3 x).
+Definition c01_xverdicts (l : list fk_xcase) := nonzero (map c01_xverdict l).
+
+(* C02: the monitor c02_b already walks the whole run (finals / stalled sets are never reset); the identity flags as for C01.
+   (w3) C02's quantifier is "every Forkable configuration with a LIB": it does not ask for New and Undo in the step filter, but
+   c02_in_scope does (c02_b needs the consumer's stack for "oldest pending block" and "never on the consumer's chain"), so a
+   stream filtered to Irreversible (+ Stalled) events was compared with the model only.  The clauses that need no stack are
+   demanded whenever Irreversible events are delivered: the announced blocks form a gap-free parent-linked chain extending the
+   starting LIB (the first may be the starting LIB itself), none exceeds the LIB number declared by the incoming block, none was
+   reported stalled, none is later delivered as Undo or Stalled; a stalled block is reported once, is never final and lies at
+   or below the final height. *)
+Record ch_mon := mkCH { ch_last : ref; ch_any : bool; ch_finals : list N; ch_stalled : list N }.
+Definition ch_step (root : ref) (inc : block) (m : ch_mon) (e : event) : option ch_mon :=
+  let b := eblk e in
+  match estep e with
+  | SIrr =>
+      let is_root := negb (ch_any m) && (bid b =? ri root) in
+      if negb (is_root || (bparent b =? ri (ch_last m))) then None else
+      if memN (bid b) (ch_stalled m) then None else
+      if negb (is_root || (bnum b <=? blib inc)) then None else
+      Some (mkCH (bref b) true (bid b :: ch_finals m) (ch_stalled m))
+  | SUndo => if memN (bid b) (ch_finals m) then None else Some m
+  | SStalled =>
+      if memN (bid b) (ch_finals m) || memN (bid b) (ch_stalled m) || negb (bnum b <=? rn (ch_last m)) then None
+      else Some (mkCH (ch_last m) (ch_any m) (ch_finals m) (bid b :: ch_stalled m))
+  | SNew | SNewIrr => Some m
+  end.
+Fixpoint ch_events (root : ref) (inc : block) (m : ch_mon) (l : list event) : option ch_mon :=
+  match l with
+  | [] => Some m
+  | e :: l' => match ch_step root inc m e with Some m' => ch_events root inc m' l' | None => None end
+  end.
+Fixpoint ch_trace (root : ref) (m : ch_mon) (h : list block) (os : list obs) : bool :=
+  match h, os with
+  | b :: h', o :: os' => match ch_events root b m (o_events o) with Some m' => ch_trace root m' h' os' | None => false end
+  | _, _ => true
+  end.
+Definition c02_chain_scope (k : fk_case) : bool :=
+  lib_established k && filt_irr k && wf_b (k_hist k) && lib_ok_b (k_mode k) (k_hist k).
+Definition c02_prop_w3 (x : fk_xcase) : bool :=
+  let k := x_k x in
+  flags_clear 3 x &&
+  (negb (c02_chain_scope k) ||
+   let root := root_ref (k_mode k) (obs_trace k) in ch_trace root (mkCH root false [] []) (k_hist k) (k_obs k)).
+Definition c02_xverdict (x : fk_xcase) : N := combine (x_k x) (c02_prop (x_k x) && c02_prop_w3 x).
+Definition c02_xverdicts (l : list fk_xcase) := nonzero (map c02_xverdict l).
+
+(* C03: (w3a) a block the reference ignores (same tip, same LIB after it: re-fed, below the LIB, not linked, not higher)
+   delivers NOTHING (Spec.C03_Spec.c03_noise, so far proved on the model only; c03_follow accepts any events that leave the
+   consumer's tip where it was, e.g. Undo x; New x); (w3b) the independence bits of the real code; (w3c) below *)
+Fixpoint c03_noise_b (cfg : config) (fc : fc_state) (h : list block) (os : list obs) : bool :=
+  match h, os with
+  | b :: h', o :: os' =>
+      let fc' := fc_step (c_first cfg) (c_incl cfg) (c_alltrig cfg) fc b in
+      (negb ((oblock_id (fc_tip fc') =? oblock_id (fc_tip fc)) && ref_eqb (fc_lib fc') (fc_lib fc)) ||
+       match o_events o with [] => true | _ => false end) &&
+      c03_noise_b cfg fc' h' os'
+  | _, _ => true
+  end.
+(* (w3c) "whenever the tip moves, the LIB becomes ...": c03_follow reads the LIB only through Irreversible events (negb f_irr || ...);
+   a consumer that filters them out sees the stream's LIB in its cursors only: the cursor LIB of every New / Undo event of a step is
+   the reference's LIB BEFORE that step (the step's own announcements come after its New / Undo events), for every filter *)
+Fixpoint c03_cursor_lib_b (cfg : config) (fc : fc_state) (h : list block) (os : list obs) : bool :=
+  match h, os with
+  | b :: h', o :: os' =>
+      let fc' := fc_step (c_first cfg) (c_incl cfg) (c_alltrig cfg) fc b in
+      forallb (fun e => match estep e with SNew | SUndo => ref_eqb (elib e) (fc_lib fc) | _ => true end) (o_events o) &&
+      c03_cursor_lib_b cfg fc' h' os'
+  | _, _ => true
+  end.
+Definition c03_prop_w3 (x : fk_xcase) : bool :=
+  let k := x_k x in
+  negb (c03_in_scope k) ||
+  (c03_noise_b (k_cfg k) (fc_init (k_mode k)) (k_hist k) (k_obs k) &&
+   c03_cursor_lib_b (k_cfg k) (fc_init (k_mode k)) (k_hist k) (k_obs k) && (x_indep x =? 0)).
+Definition c03_xverdict (x : fk_xcase) : N := combine (x_k x) (c03_prop (x_k x) && c03_prop_w3 x).
+Definition c03_xverdicts (l : list fk_xcase) := nonzero (map c03_xverdict l).
+
+(* C04: "along one stream the cursor's LIB height never decreases": c04_b evaluates its LIB clauses only when Irreversible events
+   are delivered (check_lib); the height clause needs no announcement and is demanded for every filter of the scope *)
+Fixpoint cursor_lib_mono_b (prev : N) (l : list event) : bool :=
+  match l with
+  | [] => true
+  | e :: l' => (prev <=? rn (elib e)) && cursor_lib_mono_b (rn (elib e)) l'
+  end.
+Definition c04_prop_w3 (x : fk_xcase) : bool :=
+  let k := x_k x in
+  flags_clear 8 x &&
+  (negb (c04_in_scope k) || cursor_lib_mono_b (rn (root_ref (k_mode k) (obs_trace k))) (all_events (obs_trace k))).
+Definition c04_xverdict (x : fk_xcase) : N := combine (x_k x) (c04_prop (x_k x) && c04_prop_w3 x).
+Definition c04_xverdicts (l : list fk_xcase) := nonzero (map c04_xverdict l).
